@@ -67,7 +67,7 @@ LAYOUTS = {
 
 
 def layout_for(n: int, lay: int) -> list:
-    opts = LAYOUTS[n]
+    opts = LAYOUTS.get(n) or [[n], [n // 2, n - n // 2], [1, "X", n - 1], [1] * n]
     return opts[lay % len(opts)]
 
 
@@ -406,7 +406,7 @@ def flat_layout(n: int, lay: int) -> list:
         2: [[2], [1, 1], [1, "X"], [0, 2, 0]],
         3: [[3], [1, 2], [2, "X"], [1, 0, 1, 1]],
         4: [[4], [2, 2], [1, "X", 2], [1, 1, 1, 1]],
-    }[n]
+    }.get(n) or [[n], [n // 2, n - n // 2], [2, "X", n - 3], [1] * n]
     return opts[lay % len(opts)]
 
 
@@ -530,12 +530,18 @@ def normalise(beh) -> dict:
     if isinstance(beh, list) and len(beh) == 4 and all(isinstance(x, int) for x in beh):
         return {"mode": "tuple", "nA": [], "lay": [], "nM": 0, "kind": [], "tmoAt": [], "budget": -1, "viol": [],
                 "exc": [], "minimize": True, "sub": False, "q": list(beh)}
+    def unmask(x):
+        return [i + 1 for i in range(16) if x >> i & 1]
+
     if isinstance(beh, list) and len(beh) == 3:
         n, m, viol = beh
+        viol = [unmask(v) for v in viol]
         return {"mode": "map", "nA": [n], "lay": [0], "nM": m, "kind": ["ok"] * m, "tmoAt": [1] * m, "budget": -1,
                 "viol": [[sorted(v) for v in viol]], "exc": [[]], "minimize": True, "sub": False, "q": [0, 0, 0, 0]}
     if isinstance(beh, list):
         n, m, viol, kind, exc, budget, minimize = beh
+        viol = [unmask(v) for v in viol]
+        exc = unmask(exc)
         return {"mode": "wide", "nA": [n], "lay": [n + m], "nM": m, "kind": list(kind), "tmoAt": [1] * m,
                 "budget": budget, "viol": [[sorted(v) for v in viol]], "exc": [sorted(exc)], "minimize": bool(minimize),
                 "sub": False, "q": [0, 0, 0, 0]}
@@ -576,12 +582,12 @@ def e2e_configs(quick: bool) -> list[dict]:
     # c_numeric is only used with SIMPLE assertions: mutants of `while b:` loop forever and the abandoned
     # executor threads keep the interpreter busy for many minutes (in-process execution cannot kill them)
     out = [cfg("c_enum", 3, "DYNAMOSA", []),
-           cfg("c_state", 5, "WHOLE_SUITE", []),
-           cfg("c_string", 7, "MIO", []),
+           cfg("c_state", 5, "WHOLE_SUITE", [], it=3),
            cfg("c_container", 4, "DYNAMOSA", ["--assertion_minimization", "False"]),
            cfg("c21_leaky", 9, "DYNAMOSA", [], assertions="SIMPLE")]
     if quick:
         return out
+    out.append(cfg("c_string", 7, "MIO", []))
     out.append(cfg("c_numeric", 9, "DYNAMOSA", [], assertions="SIMPLE"))
     out.append(cfg("c21_leaky", 13, "MIO", []))
     out.append(cfg("c21_leaky", 17, "WHOLE_SUITE", [], assertions="SIMPLE", it=6))
@@ -622,7 +628,9 @@ def run_one(args) -> dict:
     out = CACHE / th / key
     done = out / "done.json"
     if done.exists():
-        return e2e.load(out, cfg, cached=True)
+        res = e2e.load(out, cfg, cached=True)
+        if not res["hung"] and any(e["ev"] == "Return" for e in res["events"]):
+            return res  # an unfinished run is never served from the cache: run it again
     shutil.rmtree(out, ignore_errors=True)
     out.mkdir(parents=True)
     (out / "cfg.json").write_text(json.dumps(cfg))
